@@ -102,6 +102,43 @@ def run(chk: Check):
             viol(f"AKAI string {s!r}: decode(encode) = {dec!r}, padded field = {field!r}", {"codec": "str", "s": s})
         else:
             chk.agree()
+    # histories: the codecs have no memory (CodecCalls.tla): every sequence of MaxCalls calls over the pools, replayed in this interpreter
+    pool_dec = [[], [28, 24, 11, 28, 15], [18, 19, 18, 11, 30, 10, 2], [28, 24, 41], [255, 11], [11, 200, 12], [0], [40, 40]]
+    pool_enc = [[], [75, 73, 67, 75], [72, 72, 32, 50], [75, 73, 97], [33, 65], [65, 0, 66], [48], [46, 45]]
+    if chk.tier != "thorough":
+        pool_dec, pool_enc = pool_dec[:6], pool_enc[:6]
+    prep = tlc.prepare("CodecCalls", dict(PoolDec=tlc.SetOf(pool_dec), PoolEnc=tlc.SetOf(pool_enc), MaxCalls=3), init="CallsInit", next="CallsNext",
+                       invariants=["Memoryless", "RoundTrips", "Emit"])
+    hres = chk.run_model(prep, label="codec call histories (3 calls over the pools)")
+    histories = [c for c in hres.cases if isinstance(c, list)]
+    want_n = (len(pool_dec) + len(pool_enc)) ** 3
+    if len(histories) != want_n:
+        raise tlc.TlcError(f"{len(histories)} histories printed, {want_n} expected")
+
+    def real_call(d, inp):
+        try:
+            r = (char_akai_to_ascii if d == "dec" else char_ascii_to_akai)(bytes(inp))
+            return {"ok": True, "out": list(r.encode("latin-1") if isinstance(r, str) else r)}
+        except InvalidCharacter:
+            return {"ok": False, "out": []}
+        except Exception as e:  # noqa - any other exception is the observation
+            return {"ok": False, "out": [type(e).__name__]}
+
+    for hist in histories:
+        chk.evaluated(("history", json.dumps([[c["dir"], c["inp"]] for c in hist])))
+        bad = None
+        for k, c in enumerate(hist):
+            got = real_call(c["dir"], c["inp"])
+            want = {"ok": c["res"]["ok"], "out": list(c["res"]["out"])}
+            if got != want and bad is None:
+                bad = (k, c, got, want)
+        if bad:
+            k, c, got, want = bad
+            viol(f"call {k + 1} of the history {[(c2['dir'], c2['inp']) for c2 in hist]}: {c['dir']}({c['inp']}) gave {got}, specification {want}",
+                 {"codec": "history", "calls": [[c2["dir"], c2["inp"]] for c2 in hist]})
+        else:
+            chk.agree()
+    chk.extra["call_histories_replayed"] = len(histories)
     chk.exhaustive = True
     chk.sample({"byte": 60, "note": T["notes"][60], "cents": T["cents"][60], "akai": T["akai"][11]})
     chk.assumptions.append("cents compared with the exact rational within 1e-9; round trips compared exactly")
